@@ -15,7 +15,7 @@ pub (crate) fn bid128_llquantexp(x: &BID_UINT128, pfpsf: &mut _IDEC_flags) -> i6
     if (x.w[1] & MASK_SPECIAL) == MASK_SPECIAL {
         // set invalid flag
         *pfpsf |= StatusFlags::BID_INVALID_EXCEPTION;
-        0x80000000
+        i64::MIN
     } else if (x.w[1] & MASK_STEERING_BITS) == MASK_STEERING_BITS {
         ((x.w[1] >> 47) & 0x3fff) as i64 - 6176
     } else {
